@@ -17,7 +17,7 @@ func inWindow(newest, s uint16) bool {
 	return uint16(s-next) <= 8192 || uint16(next-s) <= 8192
 }
 
-const maxOps = 8
+const maxOps = 16
 
 // hist is the SPECIFICATION's memory of a history: which source numbers were
 // withheld, and which were forwarded under which number.  It is updated from
@@ -51,8 +51,11 @@ func (h *hist) isWithheld(s uint16) bool {
 
 // step feeds one arriving packet through Drop-or-Map exactly like
 // rtpDownTrack.Write does, and checks the property on the result.
-func (h *hist) step(m *Map, i int, wantDrop bool) {
-	s := v.U16(v.Idx("s", i))
+func (h *hist) step(m *Map, i int, wantDrop bool, fixed bool, sfix uint16) {
+	s := sfix
+	if !fixed {
+		s = v.U16(v.Idx("s", i))
+	}
 	p := v.U16(v.Idx("p", i))
 	if h.have {
 		v.Assume(inWindow(h.newest, s))
@@ -76,10 +79,18 @@ func (h *hist) step(m *Map, i int, wantDrop bool) {
 	}
 	v.Assert(!h.isWithheld(s), "a withheld packet is never forwarded later")
 	v.Assert(out == s-h.withheldBefore(s), "outgoing seqno = incoming - number of earlier withheld packets")
+	dup, uniq, ord := true, true, true
 	for j := 0; j < h.nf; j++ {
-		v.Assert(v.Implies(h.fs[j] == s, h.fo[j] == out), "a duplicate/late copy gets the number of the first copy")
-		v.Assert(v.Implies(h.fs[j] != s, h.fo[j] != out), "two different forwarded packets never share a number")
-		v.Assert(v.Implies(before(h.fs[j], s), before(h.fo[j], out)), "source order is preserved")
+		dup = v.And(dup, v.Implies(h.fs[j] == s, h.fo[j] == out))
+		uniq = v.And(uniq, v.Implies(h.fs[j] != s, h.fo[j] != out))
+		ord = v.And(ord, v.Implies(before(h.fs[j], s), before(h.fo[j], out)))
+	}
+	v.Assert(dup, "a duplicate/late copy gets the number of the first copy")
+	if v.Param("full") == 1 {
+		// consequences of the formula above (given that only in-order
+		// packets are withheld); stated separately in the thorough tier
+		v.Assert(uniq, "two different forwarded packets never share a number")
+		v.Assert(ord, "source order is preserved")
 	}
 	h.fs[h.nf], h.fo[h.nf] = s, out
 	h.nf++
@@ -89,20 +100,36 @@ func (h *hist) step(m *Map, i int, wantDrop bool) {
 	v.Reach("forwarded")
 }
 
-// H_C01_BMC: every history of K arrivals from the zero Map (any start seqno,
-// wraparound, loss, duplicates, reordering, any drop pattern) inside the
-// re-synchronisation window.
-func H_C01_BMC() {
-	K := v.Param("K")
-	var m Map
-	var h hist
+// prefixes are in-order set-up histories (M = forwarded, D = offered for
+// withholding) over consecutive sequence numbers from a symbolic base; they
+// put the map into states with one or more offset intervals at almost no
+// path cost, so that the K free operations that follow explore the
+// interesting neighbourhood (late copies, duplicates, gaps next to drops).
+var prefixes = []string{"", "MDM", "MDMDDM", "MMDMDMD", "DM"}
+
+func (h *hist) history(m *Map, K int) {
+	pat := prefixes[v.Choice("prefix", len(prefixes))]
 	var drop [maxOps]bool
 	for i := 0; i < K; i++ {
 		drop[i] = v.Choice("drop", 2) == 1
 	}
-	for i := 0; i < K; i++ {
-		h.step(&m, i, drop[i])
+	base := v.U16("base")
+	n := len(pat)
+	for i := 0; i < n; i++ {
+		h.step(m, i, pat[i] == 'D', true, base+uint16(i))
 	}
+	for i := 0; i < K; i++ {
+		h.step(m, n+i, drop[i], false, 0)
+	}
+}
+
+// H_C01_BMC: every history made of a set-up prefix followed by K arbitrary
+// arrivals (any start seqno, wraparound, loss, duplicates, reordering, any
+// drop pattern) inside the re-synchronisation window.
+func H_C01_BMC() {
+	var m Map
+	var h hist
+	h.history(&m, v.Param("K"))
 	v.Reach("end")
 }
 
@@ -110,16 +137,9 @@ func H_C01_BMC() {
 // answered by Reverse with the source packet that was forwarded as o, or
 // refused; never with a withheld packet.
 func H_C03_BMC() {
-	K := v.Param("K")
 	var m Map
 	var h hist
-	var drop [maxOps]bool
-	for i := 0; i < K; i++ {
-		drop[i] = v.Choice("drop", 2) == 1
-	}
-	for i := 0; i < K; i++ {
-		h.step(&m, i, drop[i])
-	}
+	h.history(&m, v.Param("K"))
 	o := v.U16("nack")
 	ok, s, _ := m.Reverse(o)
 	if ok {
@@ -128,9 +148,11 @@ func H_C03_BMC() {
 		}
 		v.Assert(!h.isWithheld(s), "a NACK never resurrects a withheld packet")
 		v.Assert(o == s-h.withheldBefore(s), "Reverse(o) is a source packet that was (or would be) forwarded as o")
+		same := true
 		for j := 0; j < h.nf; j++ {
-			v.Assert(v.Implies(h.fo[j] == o, h.fs[j] == s), "Reverse returns the packet originally sent under that number")
+			same = v.And(same, v.Implies(h.fo[j] == o, h.fs[j] == s))
 		}
+		v.Assert(same, "Reverse returns the packet originally sent under that number")
 		// re-running Map (as gotNACK -> Write does) re-applies the same number
 		ok2, out2, _ := m.Map(s, 0)
 		v.Assert(v.Implies(ok2, out2 == o), "re-mapping the source packet yields the NACKed number again")
